@@ -21,6 +21,7 @@ EXPLANATION = (
     "document arm is FROM_DOCUMENT or exception; (4) unsupported schemes return before any list is "
     "probed; (5) domain-option hashing agreement: rule side fast_hash(domain) sorted before use, request "
     "side fast_hash of the source host and each dot-suffix, looked up with binary search."
+    ' Later additions: every regex builder of compile_regex is configured like its siblings ($match-case); no list is probed for a request with an unsupported scheme (also generichide and removeparam); `$domain=` entries are hashed lower-cased; the scheme arms of parse (`|https://` ...) are entered only when the remaining pattern is exactly the scheme; the option / domain loops visit every entry.'
 )
 NOT_DECIDED = ("The implicit-type mask arithmetic of NetworkFilter::parse on concrete option sets (value level); "
                "pattern matching (C02).")
